@@ -54,17 +54,19 @@ func VerifC09IngestRace() {
 	rm.registeredDecoys.updateInDetector = func(d *DecoyRegistration) {}
 	verifnd.LoopBound("crypto/rand.Int", 2)
 	secret := verifSecret(0x61)
-	msg := verifIngestMsg(secret)
 	mk := func() *DecoyRegistration {
-		regs, err := rm.parseRegMessage(msg)
-		if err != nil || len(regs) != 1 {
-			panic("harness: cannot build registration")
-		}
-		return regs[0]
+		// (built directly: parsing and phantom selection are C07's subject, and cheap paths matter here)
+		r := verifNewReg(secret, pb.TransportType_Min, verifP4)
+		r.Covert = verifCovertOK
+		r.registrationAddr = net.ParseIP("203.0.113.5").To4()
+		return r
 	}
 	r1, r2 := mk(), mk()
 	Stat()           // start the statistics singleton (its tickers block at once)
 	verifnd.Settle() // ... before the race starts
+	// interleavings are explored at acquisitions of the registry lock and at the probe (the
+	// statistics mutexes only guard counters that no obligation reads)
+	verifnd.PreemptOnlyAt(&rm.registeredDecoys.m)
 	var wg sync.WaitGroup
 	run := func(f func()) {
 		wg.Add(1)
@@ -82,7 +84,8 @@ func VerifC09IngestRace() {
 	if workers == 2 {
 		run(func() { rm.ingestRegistration(r2) })
 	}
-	if scenario >= 1 {
+	if scenario == 2 || scenario == 1 && verifnd.Thorough() {
+		// bound (quick): the sweeper joins worker x lookup only in the thorough tier
 		run(func() { rm.RemoveOldRegistrations() })
 	}
 	if scenario == 1 {
@@ -125,6 +128,7 @@ func VerifC09Pipeline() {
 	lt := &verifLiveness{}
 	var ann []verifAnnouncement
 	rm := verifManager(lt, &ann)
+	verifnd.FirstTouchReduction()
 	rm.IngestWorkerCount = 1
 	if verifnd.Thorough() {
 		rm.IngestWorkerCount = 2
